@@ -96,15 +96,40 @@ class Ctx:
 _built = {}
 
 
+NODEBUG = [False]
+
+
+class nodebug_pass:
+    """with nodebug_pass(ctx): ...  -- every harness binary run inside is the build with the
+    library's debug assertions and overflow checks OFF (profile `nodebug` of the harness)."""
+
+    def __init__(self, ctx):
+        self.ctx = ctx
+
+    def __enter__(self):
+        NODEBUG[0] = True
+        self.n0 = len(self.ctx.cov["impl_runs"])
+
+    def __exit__(self, *a):
+        NODEBUG[0] = False
+        for r in self.ctx.cov["impl_runs"][self.n0:]:
+            if isinstance(r, dict):
+                r["build_profile"] = "debug-assertions off, overflow-checks off"
+        return False
+
+
 def build_harness(parallel=True, features=()):
     """cargo build of the harness against /repo's current working tree.  `features`:
     contributor modules (x-meta, x-parseq, x-world, x-zoo) needed by the caller's binary."""
     features = tuple(sorted(features))
-    key = ("par" if parallel else "nopar") + "".join("-" + f for f in features)
+    nd = NODEBUG[0]
+    key = ("par" if parallel else "nopar") + "".join("-" + f for f in features) + ("-nd" if nd else "")
     if key in _built:
         return _built[key]
     tdir = "target" if key == "par" else "target-" + key
     cmd = ["cargo", "build", "--offline", "--bins", "--target-dir", tdir]
+    if nd:
+        cmd += ["--profile", "nodebug"]
     if not parallel:
         cmd += ["--no-default-features"]
     if features:
@@ -112,7 +137,7 @@ def build_harness(parallel=True, features=()):
     r = sh(cmd, cwd=HARNESS, timeout=1800)
     if r.returncode != 0:
         raise ToolError("harness build failed (%s):\n%s" % (key, r.stdout[-4000:]))
-    _built[key] = os.path.join(HARNESS, tdir, "debug")
+    _built[key] = os.path.join(HARNESS, tdir, "nodebug" if nd else "debug")
     return _built[key]
 
 
